@@ -68,7 +68,7 @@ def point(op, obj="", info=None, yield_=True):
     elif T.mode == "controlled" and yield_:
         s = T.sched
         if s is not None and threading.get_ident() in T.worker_of:
-            s.yield_point(worker_id(), op, obj)
+            s.yield_point(worker_id(), op, obj, info)
     elif T.mode == "noise" and yield_:
         r = T.rng
         if r is not None:
@@ -199,14 +199,49 @@ class TracedFile:
         return getattr(self._f, k)
 
 
+_tls = threading.local()
+
+
 def traced_open(path, mode="r", *a, **k):
     p = str(path)
     if T.mode == "off":
         return builtins.open(path, mode, *a, **k)
     point("open", _os.path.basename(p), {"mode": mode})
-    f = builtins.open(path, mode, *a, **k)
+    _tls.in_traced_open = True
+    try:
+        f = builtins.open(path, mode, *a, **k)
+    finally:
+        _tls.in_traced_open = False
     after("opened", _os.path.basename(p), {"mode": mode})
     return TracedFile(f, p, mode)
+
+
+_audit = {"installed": False, "dir": None}
+
+
+def watch_directory(d):
+    """opens of files under d that do NOT go through the module's own `open` (shutil, pathlib, csv helpers ...)
+    become scheduling points too, through a sys audit hook"""
+    import sys
+
+    _audit["dir"] = _os.path.realpath(d) if d else None
+    if _audit["installed"]:
+        return
+
+    def hook(event, args):
+        if event != "open" or _audit["dir"] is None or T.mode != "controlled" or T.sched is None:
+            return
+        if getattr(_tls, "in_traced_open", False) or threading.get_ident() not in T.worker_of:
+            return
+        path, mode = args[0], args[1]
+        if not isinstance(path, str) or not _os.path.realpath(path).startswith(_audit["dir"]):
+            return
+        m = mode if isinstance(mode, str) else ""
+        emit("sysopen", _os.path.basename(path), {"mode": m})
+        T.sched.yield_point(worker_id(), "sysopen", _os.path.basename(path), {"mode": m})
+
+    sys.addaudithook(hook)
+    _audit["installed"] = True
 
 
 class OsProxy:
@@ -288,11 +323,14 @@ class Controlled:
         self.errors = {}
         self.last = None
         self.preemptions = 0
+        self.pending_info = {}
+        self.granted_info = {}  # worker -> (op, obj, info) of the point it was last released from
 
     # called by workers ------------------------------------------------------------------
-    def yield_point(self, w, op, obj):
+    def yield_point(self, w, op, obj, info=None):
         with self.cv:
             self.pending[w] = (op, obj)
+            self.pending_info[w] = info
             self.state[w] = "waiting"
             self.cv.notify_all()
             while self.state[w] != "running":
@@ -367,6 +405,7 @@ class Controlled:
                 if op == "acquire":
                     self.owner[obj] = w
                 self.trace.append((w, op, obj))
+                self.granted_info[w] = (op, obj, self.pending_info.get(w))
                 self.last = w
                 self.state[w] = "running"
                 step += 1
@@ -393,6 +432,53 @@ def pct(rng, workers, depth, est_steps=60):
                 low[0] -= 1
                 prio[last] = low[0]
         return max(runnable, key=lambda w: prio[w])
+
+    return choose
+
+
+def focused_walk(rng, p_io=0.5, p_other=0.03):
+    """random walk that keeps running the same worker and preempts it mostly where shared state is touched
+    outside the module's own statements: at file operations, lock boundaries and inside stdlib helpers"""
+
+    def choose(step, runnable, last, sched):
+        if last in runnable and len(runnable) > 1:
+            op, obj = sched.pending[last]
+            hot = op in ("open", "write", "write_rest", "read", "close", "remove", "after_release", "eval_begin") or (op == "line" and not obj.startswith("panoptica_"))
+            if rng.random() >= (p_io if hot else p_other):
+                return last
+            others = [w for w in runnable if w != last]
+            return others[int(rng.integers(0, len(others)))]
+        return runnable[int(rng.integers(0, len(runnable)))]
+
+    return choose
+
+
+def writer_freeze(rng, budget=400):
+    """after a worker has opened a file for writing (truncation / append has just happened, its data is not there
+    yet) it is frozen at its next scheduling point while the other workers run (random walk), until none of them
+    can run or a step budget is used up -- aimed at readers that can see a half-written shared file"""
+    state = {"frozen": None, "left": 0}
+
+    def is_write_open(g):
+        return g is not None and g[0] in ("open", "sysopen") and any(c in ((g[2] or {}).get("mode") or "") for c in "wax+")
+
+    def choose(step, runnable, last, sched):
+        if state["frozen"] is not None:
+            others = [w for w in runnable if w != state["frozen"]]
+            state["left"] -= 1
+            if others and state["left"] > 0:
+                return others[int(rng.integers(0, len(others)))]
+            w, state["frozen"] = state["frozen"], None
+            if w in runnable:
+                return w
+        if last in runnable and len(runnable) > 1 and is_write_open(sched.granted_info.get(last)) and rng.random() < 0.7:
+            state["frozen"], state["left"] = last, budget
+            sched.granted_info[last] = None
+            others = [w for w in runnable if w != last]
+            return others[int(rng.integers(0, len(others)))]
+        if last in runnable and rng.random() < 0.9:
+            return last
+        return runnable[int(rng.integers(0, len(runnable)))]
 
     return choose
 
@@ -446,3 +532,53 @@ def interleaving_hash(trace):
     import hashlib
 
     return hashlib.blake2b(repr(trace).encode(), digest_size=8).hexdigest()
+
+
+# ----------------------------------------------------------------------------- line-level scheduling points
+_LINE_TOOL = 4
+_line_state = {"on": False, "files": set()}
+
+
+def enable_line_points(extra_files=()):
+    """every source line executed by a managed worker inside the aggregator / statistics modules (and the
+    stdlib helpers they may copy files with) becomes a scheduling point of the controlled scheduler -- reaches
+    interleavings between operations that do not go through the traced locks / open (sys.monitoring, 3.12+)"""
+    import shutil
+    import sys
+
+    mon = getattr(sys, "monitoring", None)
+    if mon is None:
+        return False
+    files = {PA.__file__, PS.__file__, shutil.__file__} | set(extra_files)
+    _line_state["files"] = files
+    if _line_state["on"]:
+        return True
+
+    def on_line(code, line):
+        if code.co_filename not in _line_state["files"]:
+            return mon.DISABLE
+        if T.mode != "controlled" or T.sched is None:
+            return None
+        if threading.get_ident() in T.worker_of:
+            T.sched.yield_point(worker_id(), "line", "%s:%d" % (_os.path.basename(code.co_filename), line))
+        return None
+
+    try:
+        mon.use_tool_id(_LINE_TOOL, "verif-lines")
+    except ValueError:
+        return False
+    mon.register_callback(_LINE_TOOL, mon.events.LINE, on_line)
+    mon.set_events(_LINE_TOOL, mon.events.LINE)
+    _line_state["on"] = True
+    return True
+
+
+def disable_line_points():
+    import sys
+
+    if _line_state["on"]:
+        mon = sys.monitoring
+        mon.set_events(_LINE_TOOL, 0)
+        mon.register_callback(_LINE_TOOL, mon.events.LINE, None)
+        mon.free_tool_id(_LINE_TOOL)
+        _line_state["on"] = False
